@@ -26,7 +26,9 @@ Record rcase := mkRCase {
   k_cat : bool;                        (* start from the predefined catalogue *)
   k_script : list decl;
   k_steps : list (option err);         (* observed outcome of every declaration *)
-  k_pre : list mop;
+  k_pre : list mop;                    (* operations evaluated after the script *)
+  k_late : list decl;                  (* declarations made after those operations *)
+  k_late_steps : list (option err);
   k_query : query;
   k_exp : robs }.
 
@@ -75,8 +77,9 @@ Fixpoint run_steps (dm : mode) (s : state) (ds : list decl) : state * list (opti
 Definition reg_model (pre : state) (c : rcase) : list (option err) * robs :=
   let dm := k_dm c in
   let (s, es) := run_steps dm (if k_cat c then pre else init) (k_script c) in
-  let s' := fold_left (fun st o => fst (run_mop dm st o)) (k_pre c) s in
-  (es, match k_query c with
+  let s1 := fold_left (fun st o => fst (run_mop dm st o)) (k_pre c) s in
+  let (s', es2) := run_steps dm s1 (k_late c) in
+  (es ++ es2, match k_query c with
        | QOp o => obs_mres (snd (run_mop dm s' o))
        | QDir syms clss => RDir (map (obs_symbol s') syms) (map (obs_units s') clss)
        | QMk a u via =>
@@ -106,7 +109,7 @@ Definition robs_eqb (a b : robs) : bool :=
 
 Definition reg_check (pre : state) (c : rcase) : bool :=
   let (es, r) := reg_model pre c in
-  list_eqb oerr_eqb es (k_steps c) && robs_eqb r (k_exp c).
+  list_eqb oerr_eqb es (k_steps c ++ k_late_steps c) && robs_eqb r (k_exp c).
 
 (* the predefined script itself: every step accepted *)
 Definition pre_state (ds : list decl) : state * bool :=
